@@ -152,3 +152,49 @@ def check_derivation(g, deriv, word, mode):
 
 def _show(x):
     return ''.join(nm for nm, _ in x)
+
+
+# ---- CYK table and a reference leftmost derivation (used to feed the text-level checkers in C19)
+
+def cyk_table(g, w):
+    n = len(w)
+    X = {}
+    for i in range(n):
+        X[i, i] = {A for A, rhs in g['R'] if len(rhs) == 1 and rhs[0][1] == 'T' and rhs[0][0] == w[i]}
+    for m in range(1, n):
+        for i in range(n - m):
+            j = i + m
+            cell = set()
+            for k in range(i, j):
+                for A, rhs in g['R']:
+                    if len(rhs) == 2 and rhs[0][0] in X[i, k] and rhs[1][0] in X[k + 1, j]:
+                        cell.add(A)
+            X[i, j] = cell
+    return X
+
+
+def leftmost_derivation(g, w):
+    """For a CNF grammar and a non-empty word it generates: list of sentential forms (lists of [name, tag])."""
+    X = cyk_table(g, w)
+    n = len(w)
+    if g['S'] not in X[0, n - 1]:
+        return None
+
+    def expand(A, i, j):
+        """Sequence of rule applications (A, rhs) in leftmost order deriving w[i..j] from A."""
+        if i == j:
+            return [(A, [[w[i], 'T']])]
+        for k in range(i, j):
+            for B, rhs in g['R']:
+                if B == A and len(rhs) == 2 and rhs[0][0] in X[i, k] and rhs[1][0] in X[k + 1, j]:
+                    return [(A, rhs)] + expand(rhs[0][0], i, k) + expand(rhs[1][0], k + 1, j)
+        raise AssertionError('inconsistent CYK table')
+
+    form = [[g['S'], 'V']]
+    out = [list(form)]
+    for A, rhs in expand(g['S'], 0, n - 1):
+        p = next(k for k, (nm, tag) in enumerate(form) if tag == 'V')
+        assert form[p][0] == A
+        form = form[:p] + [list(x) for x in rhs] + form[p + 1:]
+        out.append(list(form))
+    return out
